@@ -65,7 +65,7 @@ Print Assumptions C11_source_hamming_buckets.
    "CASSF" = C A S S F = letters number 1 0 15 15 4 of the alphabet *)
 Definition CASSF : str := [67; 65; 83; 83; 70]%N.
 Example C11g_CASSF_in_alphabet : Forall (fun ch => In ch gen_aminoacids) CASSF.
-Proof. repeat constructor; vm_compute; tauto. Qed.
+Proof. unfold CASSF. repeat (apply Forall_cons; [vm_compute; tauto|]). apply Forall_nil. Qed.
 
 Example C11g_encode_CASSF :
   gen_histogram_encode_exc gen_aminoacids CASSF 1 = Ok [1;1;0;0;1;0;0;0;0;0;0;0;0;0;0;2;0;0;0;0]%Z /\
